@@ -268,7 +268,7 @@ impl Script {
     }
 
     pub fn from_asm_string(asm: &str) -> Result<Script, BSVErrors> {
-        let bits: Result<Vec<ScriptBit>, _> = asm.split(' ').filter(|x| !x.trim().is_empty()).map(Script::map_string_to_script_bit).collect();
+        let bits: Result<Vec<ScriptBit>, _> = asm.split_whitespace().map(Script::map_string_to_script_bit).collect();
         let bits = Script::if_statement_pass(&mut bits?.iter())?;
 
         Ok(Script(bits))
